@@ -559,7 +559,7 @@ class ExprMixin:
         if items is not None:
             its = list(items)
             return Seq(lambda k: self.pick(its, zint(a) + zint(k)), n, kind)
-        return Seq(lambda k: z3.Select(arr, zint(a) + zint(k)), n, kind)
+        return Seq(lambda k: z3.Select(arr, zint(a) + zint(k)), n, kind, win=(arr, zint(a), zint(b)))
 
     def pick(self, items, k):
         if is_cint(k):
